@@ -62,7 +62,7 @@ type Contract struct {
 	PanicsNev    bool
 	HasWrites    bool
 	Writes       []Family
-	HasReads     bool     // a `reads` clause was given: every load from caller-visible memory lies in Reads ∪ Writes
+	HasReads     bool // a `reads` clause was given: every load from caller-visible memory lies in Reads ∪ Writes
 	Reads        []Family
 	Modifies     []Clause // whole-object frames (struct fields / maps)
 	Loops        map[int]*LoopSpec
